@@ -292,6 +292,18 @@ Proof.
   apply (H (c0, [])). constructor.
 Qed.
 
+Lemma peer_notice_closed cl o d clk : quiet is_closed (peer_notice cl o d clk).2.
+Proof.
+  unfold peer_notice.
+  match goal with |- context [fold_left _ ?w (?c, [])] => generalize w; generalize c end. intros c0 wills.
+  assert (H : ∀ (acc : cluster * list eobs), quiet is_closed acc.2 →
+              quiet is_closed (fold_left (λ acc w, let '(c, ob, _) := append_at acc.1 o w in (c, (acc.2 ++ ob)%list)) wills acc).2).
+  { induction wills as [|w wills IH]; intros acc Hacc; cbn [fold_left]; [done|]. apply IH.
+    pose proof (append_at_spec acc.1 o w) as Hs. destruct (append_at acc.1 o w) as [[c ob] ok]. cbn in *. apply quiet_app. split; [done|].
+    destruct Hs as [[_ ->]|[_ ->]]; by repeat constructor. }
+  apply (H (c0, [])). constructor.
+Qed.
+
 Definition may_close (o : eop) : bool :=
   match o with EConnect _ _ _ _ _ _ _ _ | EBadConnect _ _ | EPublish _ _ _ _ _ | EPing _ _ | EDisconnect _ _ | EProtoError _ _ | EEof _ _ => true | _ => false end.
 
@@ -313,6 +325,8 @@ Proof.
   - apply elem_of_list_singleton in Hin. done.
   - pose proof (with_session_closed cl c0 (λ k i n s, (cl, dl s)) ltac:(intros; apply dl_closed)) as Hq. unfold quiet in Hq. rewrite Forall_forall in Hq. by specialize (Hq _ Hin).
   - by apply elem_of_nil in Hin.
+  - by apply elem_of_nil in Hin.
+  - pose proof (peer_notice_closed cl observer dead clk) as Hq. unfold quiet in Hq. rewrite Forall_forall in Hq. by specialize (Hq _ Hin).
   - by apply elem_of_nil in Hin.
 Qed.
 
